@@ -64,6 +64,7 @@ def outsOfActs (m : Req) (canPub : Bool) (getTxt : Option Str) : List (Act Unit 
      | some txt => [Out.pub (m.respTopic.getD m.topic) (.text txt) .ok m.cd]
      | none => []) ++ outsOfActs m canPub getTxt rest
   | .respond a c :: rest => respond m canPub (bodyOfArg a) (codeOfGen c) ++ outsOfActs m canPub getTxt rest
+  | .pubTo t p c cd :: rest => Out.pub t (.text p) (codeOfGen c) cd :: outsOfActs m canPub getTxt rest
 
 def retOfGen : Gen.Mqtt.Ret → Mqtt.Ret
   | .Unchanged => .unchanged | .Changed => .changed
@@ -364,5 +365,56 @@ theorem update_tie {σ : Type} (ops : SettingsOps σ) (pfx : Str) (c : Client) (
       simp [update, step, arm, processEvent, smStep, uenvOf, guardOf, hconn, stToGen.eq_7, clientOf, tmoOf, stOfGen.eq_7,
         map_retToGen, stOfGen_toGen, pollStep_timeout] <;>
       (refine ⟨_, _, ⟨rfl, rfl⟩, ?_⟩; simp [stOfGen_toGen, tmoOf])
+
+/-! ### `iter_list()` -/
+
+/-- the `while can_publish { .. }` loop of `iter_list` run as written: `k` passes with a free slot, then the condition fails -/
+def runListG {E Es X : Type} (env : Env E Es Pend) : Nat → Cl E Es Pend X → P (Cl E Es Pend X)
+  | 0, cl =>
+    match iter_list_body env false cl with
+    | .ret cl' _ => .val cl'
+    | .next cl' => .val cl'
+    | .panic m => .panic m
+  | k + 1, cl =>
+    match iter_list_body env true cl with
+    | .next cl' => runListG env k cl'
+    | .ret cl' _ => .val cl'
+    | .panic m => .panic m
+
+def outOfAct {E Es : Type} : Act E Es → Option Out
+  | .pubTo t p c cd => some (.pub t (.text p) (codeOfGen c) cd)
+  | _ => none
+
+/-- **`iter_list` as translated is the model's list pump** (`listPump` / `iterList`, on which `list_no_gaps`,
+`list_complete`, `list_any_schedule` are proved): one `Continue` message per remaining path while slots are granted, then
+one `Ok` with empty payload and the `Complete` transition; correlation data and response topic of the cached request on
+every message; no panic in state `Multipart` with a cached response topic. -/
+theorem iter_list_tie {E Es X : Type} (env : Env E Es Pend) (rt : Str) (cd : Option (List Nat)) :
+    ∀ (k : Nat) (rem : List Str) (acts0 : List (Act E Es)) (log : List String) (ext : X),
+      ∃ cl', runListG env k { st := .Multipart, pending := ⟨rem, some rt, cd⟩, acts := acts0, log := log, ext := ext } = .val cl' ∧
+        cl'.pending = ⟨(listPump rt cd rem k).1, some rt, cd⟩ ∧
+        cl'.st = (if (listPump rt cd rem k).2.2 then SmState.Single else SmState.Multipart) ∧
+        cl'.log = log ∧ cl'.ext = ext ∧
+        ∃ new, cl'.acts = acts0 ++ new ∧ new.filterMap outOfAct = (listPump rt cd rem k).2.1 := by
+  intro k
+  induction k with
+  | zero =>
+    intro rem acts0 log ext
+    refine ⟨_, rfl, ?_⟩
+    simp [iter_list_body, listPump]
+  | succ k ih =>
+    intro rem acts0 log ext
+    cases rem with
+    | nil =>
+      simp only [runListG, iter_list_body, ↓reduceIte, processEvent, smStep, listPump]
+      refine ⟨_, rfl, ?_⟩
+      simp [outOfAct, codeOfGen]
+    | cons p rest =>
+      simp only [runListG, iter_list_body, ↓reduceIte, listPump]
+      obtain ⟨cl', h1, h2, h3, h4, h5, new, h6, h7⟩ := ih rest (acts0 ++ [Act.pubTo rt p Code.Continue cd]) log ext
+      simp only [ne_eq, not_true_eq_false, decide_false, Bool.false_eq_true, ↓reduceIte]
+      refine ⟨cl', h1, h2, h3, h4, h5, Act.pubTo rt p Code.Continue cd :: new, ?_, ?_⟩
+      · rw [h6]; simp
+      · simp [outOfAct, codeOfGen, h7]
 
 end MiniconfVerif.GenTie
